@@ -98,6 +98,7 @@ RECURSIVE TypeOf(_, _)
 TypeOf(t, ctx) ==
   CASE t.k = "nil" -> "nil" [] t.k = "bool" -> "bool" [] t.k = "int" -> "int" [] t.k = "float" -> "float64"
     [] t.k = "str" -> "string" [] t.k = "id" -> MemberType[t.name] [] t.k = "ptr" -> ElemT(ctx)
+    [] t.k = "const" -> "any"
     [] t.k = "un"   -> TyUn(t.op, TypeOf(t.x, ctx))
     [] t.k = "bin"  -> TyBin(t.op, TypeOf(t.l, ctx), TypeOf(t.r, ctx), {})
     [] t.k = "prop" -> TyProp(TypeOf(t.x, ctx), t.name)
